@@ -24,6 +24,10 @@ pub struct StoreExpect {
     pub malformed: bool,
     /// Deleted applies only because of a marker put there by a request naming a foreign target
     pub foreign_targets: Vec<String>,
+    /// the request names an own address whose marker key (kind 2 + author 32 + length 1 + the
+    /// identifier in full) exceeds LMDB's 511-byte key limit: the engine may refuse the put, and
+    /// the call may then fail with that error - a failure like any other (nothing changes)
+    pub engine_refusal: bool,
 }
 
 impl StoreExpect {
@@ -126,6 +130,7 @@ impl Model {
         let mut tie = false;
         let mut malformed = false;
         let mut foreign_targets = vec![];
+        let mut engine_refusal = false;
         if self.retrievable.contains(&e.id) {
             let _ = refusals.insert(Refusal::Duplicate);
         }
@@ -170,6 +175,8 @@ impl Model {
                             if a.pk != e.pk {
                                 let _ = refusals.insert(Refusal::InvalidDelete);
                                 foreign_targets.push(format!("a:{}", a.label()));
+                            } else if 35 + a.d.len() > 511 {
+                                engine_refusal = true;
                             }
                         }
                         None => malformed = true,
@@ -177,7 +184,7 @@ impl Model {
                 }
             }
         }
-        StoreExpect { refusals, tie, malformed, foreign_targets }
+        StoreExpect { refusals, tie, malformed, foreign_targets, engine_refusal }
     }
 
     /// Apply a successful store. `skip_foreign`: foreign targets of a deletion request are
